@@ -153,6 +153,7 @@ func (srv *Srv) flush(req *SrvReq) {
 	}
 	conn.Unlock()
 
+	verifPoint("flush_status", conn, req)
 	if r == nil {
 		// there are no requests with that tag
 		req.Respond()
@@ -167,6 +168,7 @@ func (srv *Srv) flush(req *SrvReq) {
 	}
 	r.Unlock()
 
+	verifPoint("flush_act", conn, req)
 	if (status & (reqWork | reqSaved)) == 0 {
 		r.Respond()
 	} else {
